@@ -72,6 +72,77 @@ CHECKS = {
             "copies/unions are checked for independence in both directions at every state to the alias depth.",
             "Alphabet of 6 names x 4 values x 6 source kinds; reference multimap in mc/checks/c16.py; CPython semantics.",
             "DESIGN.md §3 C16"),
+
+    "C04": ("fault_enumeration",
+            "exhaustive enumeration of per-attempt outcome scripts (connect/read/other faults, statuses, Retry-After) x Retry spellings x methods x pool kinds on the real urlopen loop (simnet), ledger-based accountant oracle",
+            "Every outcome script up to the length bound (each attempt answered by one of 13 environment outcomes: refused/timed-out dial, read timeout, reset, EOF, garbage, stalled body, TLS error, "
+            "handshake failure in a tunnel, 500, 503+Retry-After, 429+date, 418+Retry-After) is run through the real HTTPConnectionPool/ProxyManager retry loop for every Retry spelling "
+            "(False, ints, per-category budgets, allowed_methods, forcelist, raise_on_status, respect_retry_after_header, backoff) x method x pool kind; an accountant over simnet's ledger "
+            "(dials, requests received, what the server did, sleeps, final result) checks budgets, non-idempotent re-sends, retries=False, Retry immutability, sleep bounds and how the loop ends.",
+            "simnet + stub TLS; virtual clock; random pinned; knob-collapse argument recorded in the evidence assumptions; the ledger never calls Retry methods.",
+            "DESIGN.md \u00a73 C04"),
+    "C05": ("fault_enumeration",
+            "exhaustive enumeration of redirect graphs (chains, loops, 13 Location forms, all 3xx codes) x policy values x policy placements x clients on the real redirect code (simnet), request-log walker oracle",
+            "Every chain/loop of the budget family (every policy value in {None, False, 0, 1, 2, Retry(redirect=k), Retry(total=k), raise_on_redirect T/F} placed at request, pool or manager level, "
+            "via PoolManager, ProxyManager and a bare pool, GET and POST+body) and of the form family (13 Location forms x 301/302/303/307/308 plus 300/304) is executed; a walker over the network's request log "
+            "requires request j to be the j-th intended request with the right method/body/content headers, a follow-up while the budget lasts and none afterwards, and the outcome the statement names.",
+            "stateless chain server (mc/c05_chains.py) encodes the remaining chain in the URL; only redirects consume budget here (C04 owns faults).",
+            "DESIGN.md \u00a73 C05"),
+    "C06": ("exploration",
+            "exhaustive enumeration of redirect chains x origin-change kinds x header spellings x containers x strip policies on the real PoolManager/ProxyManager/pool (simnet), relational request-log oracle",
+            "Every chain whose hops change host, port, scheme or only letter case / explicit default port, for every spelling of the sensitive header names, every container (dict, HTTPHeaderDict with repeats, manager defaults), "
+            "custom remove_headers_on_redirect sets at request and manager level, all 3xx codes and Location forms; from the first origin change on no strip-set header may appear, every other header must arrive unchanged, "
+            "single-host pools must raise HostChangedError without dialling elsewhere.",
+            "origins are judged from what the network saw (dialled address, TLS layer, absolute-form target, CONNECT authority) by an independent normaliser.",
+            "DESIGN.md \u00a73 C06"),
+    "C08": ("exploration",
+            "exhaustive enumeration of SAN lists x hostnames over a label alphabet and of pin transformations, against an independent three-valued RFC 6125 / digest reference",
+            "All SAN lists up to the entry bound and all hostnames of 1..k labels over {a, b, ab, *, a*, *a, a*b, **, xn--a, xn--*, empty, upper-case variants}, IPv4/IPv6 literals in bracketed, zoned and non-canonical spellings, "
+            "commonName on/off, through match_hostname, connection._match_hostname and assert_fingerprint (all pins derived from the true MD5/SHA-1/SHA-256 digests by case change, colon insertion, nibble flips, truncation, extension); "
+            "the reference (no urllib3, ipaddress, re) says must-accept / must-reject / either.",
+            "'either' regions listed in the evidence assumptions; getpeercert()-style dicts are given directly.",
+            "DESIGN.md \u00a73 C08"),
+    "C09": ("fault_enumeration",
+            "exhaustive enumeration of proxy configurations x CONNECT faults x request histories on the real ProxyManager/tunnel code (simnet with TLS-nesting labels), truth-table + per-socket rule oracle",
+            "Every (proxy scheme, destination scheme, use_forwarding_for_https, proxy cert ok/bad, origin cert ok/bad, CONNECT answer 200/403/407/502/garbage/EOF, proxy_headers, request headers, host form) with histories of 1-3 requests "
+            "and the server closing the tunnel in between; every byte is labelled with the TLS nesting it travelled in; tunnel iff the documented truth table says so, CONNECT authority exact, origin-form inside / absolute-form outside, "
+            "proxy headers never inside a tunnel, refused CONNECT => request never sent and ProxyError/SSLError, closed tunnel re-established before reuse.",
+            "stub TLS stands in for OpenSSL (conformance-checked against real TLS via mc.tlsnet on fault-free tunnel cases each run); python 3.12 http.client._tunnel writes CONNECT.",
+            "DESIGN.md \u00a73 C09"),
+    "C11": ("exploration",
+            "exhaustive enumeration of body kinds x sizes x methods x framing options x attempt histories on the real urlopen (simnet), independent de-framer + reference payload oracle",
+            "Every (driver pool/manager, body kind incl. bytes/str/buffers with itemsize>1/seekable, text, tell-less, failing-tell, failing-seek files/lists/generators/one-shot iterators with empty chunks, "
+            "size around the blocksize, file start offset, method, chunked flag, caller framing header) x every attempt history of length <= 3 over {connect error, reset, 503, 301, 303, 307, 308}; "
+            "each attempt's bytes are de-framed by mc/httpparse.py and compared with the payload computed from the body specification; re-sends must be byte-identical or fail with UnrewindableBodyError.",
+            "blocksize 8; 'either' regions listed in the evidence assumptions.",
+            "DESIGN.md \u00a73 C11"),
+    "C14": ("exploration",
+            "exhaustive enumeration of all strings up to the length bound over a delimiter-heavy alphabet plus a grammar product of hostile components through parse_url, independent RFC 3986 reading as reference",
+            "All strings up to length L over the alphabet (with scheme prefixes) and the full product of hostile userinfo/host/port/path/query/fragment components: parse_url must return a Url or raise LocationParseError; "
+            "http/https results must be in normal form (lower-case scheme/host, port range, no dot-segments, RFC characters only, upper-case escapes, no double encoding, stable under re-parse); "
+            "host/port/userinfo must equal those of an independent reading; running time on pathological repetitions up to 10^5 characters must scale linearly (bounded measurement, reported separately).",
+            "the timing clause is a bounded measurement on a finite family, not an enumeration verdict; 'either' regions counted in the evidence.",
+            "DESIGN.md \u00a73 C14"),
+    "C15": ("exploration",
+            "exhaustive enumeration of grammar URLs x client kinds (direct, forwarding proxy, CONNECT tunnel) on the real PoolManager/ProxyManager (simnet), relational wire oracle",
+            "Every URL of the component product (hostnames, IPv4, bracketed IPv6 with/without zone, IDN, trailing dot, explicit/default/odd ports, userinfo, empty path with query, fragments) that the manager accepts is requested; "
+            "the dialled address, Host header, TLS server name, CONNECT authority and request target are read off the network and compared with an independent reading of the URL; "
+            "case/default-port variants must reach the same pool and produce byte-identical requests; URLs without a host must be rejected.",
+            "simnet records what create_connection and the TLS layer were given; zone-id spelling in Host/CONNECT is 'either'.",
+            "DESIGN.md \u00a73 C15"),
+    "C19": ("exploration",
+            "exhaustive enumeration of Timeout(total, connect, read) grids x placements x connect/tunnel durations x 2-request histories on a virtual clock (simnet), timeout arithmetic reference",
+            "Every (total, connect, read) over {unset, None, 0.5, 2, 10} at pool and request level, connect / CONNECT-exchange / send durations from the duration alphabet, direct, forwarding and tunnel routes, fresh and reused connections, "
+            "sequences of two requests sharing a pool Timeout: the timeout in force at every socket wait is read from the in-memory socket and compared with min(connect,total) / min(read,total-elapsed); "
+            "zero remaining budget must raise ReadTimeoutError without waiting; every invalid value must be rejected at construction; a request's clock never leaks into the next.",
+            "virtual clock owned by simnet; 'either' regions (send time counted or not) recorded in the evidence.",
+            "DESIGN.md \u00a73 C19"),
+    "C20": ("exploration",
+            "exhaustive enumeration of hostile field names / filenames / values / field-list shapes through encode_multipart_formdata and request_encode_body, strict independent multipart parser",
+            "All names and filenames up to the length bound over a hostile alphabet (quotes, CR, LF, backslash, semicolon, non-ASCII, boundary look-alikes), values that contain boundary prefixes, tuple/dict/RequestField inputs and field lists up to the arity bound: "
+            "the body must parse under the strict parser into exactly the given fields in order, with WHATWG-escaped names, the data bytes intact, the boundary of the returned content type, and a closing delimiter.",
+            "boundaries are read from the returned content type (os.urandom stand-in keeps them deterministic); precondition: boundary does not occur in any supplied string.",
+            "DESIGN.md \u00a73 C20"),
 }
 
 PENDING_REASON = "check not built yet in this round (planned: DESIGN.md §3); not claimed until it runs clean"
